@@ -134,6 +134,13 @@ func NewWorld(p WParams) *World {
 		}
 		w.reps = append(w.reps, newReplica(i, w.typ, i == 0, m))
 	}
+	// The creator pushes its creation snapshot and every subscriber completes its subscription
+	// (receives the log from position 1) before the explored history starts: the real protocol
+	// discards whatever a subscriber does before its first sync (wired.go checkOptionAndError,
+	// server subscribeDatatype); late subscription itself is explored by the E2 checks.
+	for i := 0; i < p.N; i++ {
+		w.Sync(i)
+	}
 	return w
 }
 
@@ -363,6 +370,8 @@ func (r *Replica) value(shape string) interface{} {
 		return []interface{}{}
 	case "nil":
 		return nil
+	case "tnil":
+		return (*string)(nil)
 	case "num":
 		r.nloc++
 		return float64(r.idx*1000 + r.nloc)
